@@ -36,6 +36,21 @@ def dev_key(row):
     return DEVKEY.get(d, d)
 
 
+def relevant(prop, row):
+    """Does a deviation taken by the trace concern this property?  (Deviations of the other
+    ServerCore properties are recorded as notes: their own checks report them.)"""
+    d = row["dev"]
+    if d.startswith("nosession-"):
+        return prop == "C35"
+    if d.startswith("crash-"):
+        if not row.get("valid", True):
+            return prop == "C35"
+        return prop == ("C31" if row["svc"] in ("Read", "Write") else "C32")
+    if d in ("read-ignores-access", "write-ignores-access"):
+        return prop == "C31"
+    return prop == "C32"
+
+
 def validate(run, scripts, label):
     """scripts: list of (case, events). Returns (#accepted scripts, deviations [(key, case, event)], rejected [(case, event)])."""
     todo = list(range(len(scripts)))
@@ -62,7 +77,7 @@ def validate(run, scripts, label):
         for r in rows:
             if r["l"] >= 1 and r.get("dev"):
                 si, ei = owner[r["l"] - 1]
-                devs.append((dev_key(r), scripts[si][0], scripts[si][1][ei]))
+                devs.append((dev_key(r), scripts[si][0], scripts[si][1][ei], relevant(label.split("-")[0], r)))
         if hwm >= len(lines):
             accepted += len(todo)
             todo = []
@@ -86,19 +101,26 @@ def core_check(run, prop, gen_cfg, mc_cfgs, dev_cfgs, simulate=None, depth=None,
     for cfg, label in dev_cfgs:
         thunks.append(lambda cfg=cfg, label=label: run.tlc("ServerCore", "ServerCore", cfg, expect="violation",
                                                           count=False, label=label, timeout=3000))
-    thunks.append(lambda: run.tlc("ServerCore", "ServerCoreGen", gen_cfg, mode="gen", simulate=simulate, depth=depth,
-                                  label="scripts generated from the contract model", timeout=3000))
+    gens = gen_cfg if isinstance(gen_cfg, list) else [(gen_cfg, simulate, depth)]
+    for cfg, sim, dep in gens:
+        thunks.append(lambda cfg=cfg, sim=sim, dep=dep: run.tlc(
+            "ServerCore", "ServerCoreGen", cfg, mode="gen", simulate=sim, depth=dep,
+            label="scripts generated from the contract model" + (" (simulation, seeded)" if sim else " (exhaustive)"),
+            timeout=3000))
     thunks.append(lambda: exe.__setitem__(0, run.go_build("servercore")))
     res = run.parallel(*thunks)
-    gen = res[-2]
     seen, scripts_in = set(), []
-    for r in gen.rows:
-        k = json.dumps(r, sort_keys=True)
-        if k not in seen:
-            seen.add(k)
-            scripts_in.append(r)
+    for gen in res[len(mc_cfgs) + len(dev_cfgs):-1]:
+        for r in gen.rows:
+            k = json.dumps(r, sort_keys=True)
+            if k not in seen:
+                seen.add(k)
+                scripts_in.append(r)
     if not scripts_in:
         raise vf.Inconclusive("no scripts generated")
+    # scheduling only: scripts that use never-issued ids last (on a tree where such a request kills the
+    # server they consume the crash budget; everything else has been run by then)
+    scripts_in.sort(key=lambda r: sum(1 for o in r["ops"] if o.get("k") == 9999))
     run.log("%d distinct scripts" % len(scripts_in))
     results = run.go_run(exe[0], ["-max-deaths", str(max_deaths)], cases=scripts_in, timeout=3000)
     if len(results) != len(scripts_in):
@@ -114,15 +136,24 @@ def core_check(run, prop, gen_cfg, mc_cfgs, dev_cfgs, simulate=None, depth=None,
     run.cov["events"] = sum(len(s[1]) for s in scripts)
     run.cov["server_crashes_observed"] = crashed
     run.cov["skipped_after_crash_budget"] = len(skipped)
-    for key, case, ev in devs:
-        run.violation(key, "accepted only through a deviating disjunct: %s" % json.dumps(ev)[:700], case={"script": case, "event": ev})
+    other = {}
+    for key, case, ev, rel in devs:
+        if rel:
+            run.violation(key, "accepted only through a deviating disjunct: %s" % json.dumps(ev)[:700],
+                          case={"script": case, "event": ev})
+        else:
+            other[key] = other.get(key, 0) + 1
+    if other:
+        run.cov["deviations_of_other_properties"] = other
+        run.log("deviations belonging to other properties (reported by their own checks): %s" % other)
     for case, ev in rejected:
         key = "unexplained-%s-%s" % (SVC.get(ev["ev"], ev["ev"]), ev["res"])
         run.violation(key, "no disjunct of the specification accepts this event: %s" % json.dumps(ev)[:700],
                       case={"script": case, "event": ev})
-    if binding and scripts:
+    clean = [sc_ for sc_ in scripts if sc_[1] and all(e["res"] != "crash" for e in sc_[1]) and sc_[1][-1]["nodes"]]
+    if binding and clean:
         # binding demo: corrupt one recorded snapshot / answer and see the rejection
-        case, evs = scripts[0]
+        case, evs = clean[0]
         bad = [dict(e) for e in evs]
         bad[-1]["nodes"] = [dict(n, val=n["val"] + 17) for n in bad[-1]["nodes"]]
         _, _, rej = validate(run, [(case, bad)], prop + "-selftest")
